@@ -231,6 +231,7 @@ type seqHist struct {
 	counts       map[string]int64
 	classes      map[string]bool
 	failedBefore bool
+	hint         string              // name to look up next
 	rcodes       map[dohfake.Key]int // response codes forced on (name, qtype; type 0 = every qtype) while an episode lasts
 }
 
@@ -327,9 +328,19 @@ func (e *env) seqHistory(work string, idx int, rng *mrand.Rand) {
 		op := &seqOp{Clock: h.clock.Secs(), Ver: h.ver}
 		h.ops = append(h.ops, op)
 		h.counts["seq_ops"]++
-		switch p := rng.IntN(100); {
+		p := rng.IntN(100)
+		switch {
+		case h.hint != "":
+			p = 0 // a response-code episode just began or ended: look the affected name up
+		case len(h.rcodes) > 0 && rng.IntN(5) == 0:
+			p = 93 // episodes are short: end it
+		}
+		switch {
 		case p < 52 || step == 0:
 			op.Kind, op.Name = "resolve", h.names[rng.IntN(len(h.names))]
+			if h.hint != "" {
+				op.Name, h.hint = h.hint, ""
+			}
 			if rng.IntN(9) == 0 {
 				op.JumpAt, op.D = 1+rng.IntN(3), []int64{1, 2, 5, 30, 60, 299}[rng.IntN(6)]
 			}
@@ -392,11 +403,20 @@ func (e *env) seqHistory(work string, idx int, rng *mrand.Rand) {
 			// for one qtype or for all. It lasts until the next op of this kind.
 			op.Kind = "rcode"
 			if len(h.rcodes) > 0 {
+				zone := h.specs[h.ver]
+				for _, n := range h.names { // a looked-up name whose lookups the episode hit
+					for k := 0; k < 3; k++ {
+						if h.forcedRcode(zone, n, k) != 0 && h.entries[n][k].Why == "after-failure" {
+							h.hint = n
+						}
+					}
+				}
 				clear(h.rcodes)
 				op.Fail = "cleared"
 			} else {
 				zone := h.specs[h.ver]
 				cur := h.names[rng.IntN(len(h.names))]
+				h.hint = cur
 				for hops := rng.IntN(3); hops > 0; hops-- { // the name looked up, or a name further down its CNAME chain
 					if c, ok := zone.Alias[cur]; ok {
 						cur = c.Target
@@ -850,6 +870,9 @@ func (h *seqHist) resolve(op *seqOp) (stop bool) {
 	}
 	if afterFail && !expectErr {
 		h.counts["seq_resolves_after_recovery"]++
+	}
+	if _, end := zone.chain(op.Name); zone.Data[end] != nil && len(zone.Data[end][kHTTPS].Prio) >= 2 && len(res.HTTPS) >= 2 {
+		h.counts["seq_results_checked_as_sorted_copy_of_unsorted_answer"]++
 	}
 	got, problem, pclass := observe(op.Name, res, func(v int) (string, *[3]rrset) {
 		if v < 0 || v >= len(h.specs) {
